@@ -619,7 +619,13 @@ func GenLogQuery(t *rapid.T, s Schema, o QueryOpts) gen.LogQuery {
 			}
 		case k == 8 && o.AllowDistinct && !o.OnlyFilters:
 			names := allNames(s)
-			q.Stages = append(q.Stages, gen.Stage{Kind: "distinct", Labels: []string{rapid.SampledFrom(names).Draw(t, "distinct-label")}})
+			// one label, or several: a record is dropped as soon as one of them repeats a value, and
+			// each label's value is remembered the moment it is looked at
+			nl := rapid.SampledFrom([]int{1, 1, 2, 2, 3}).Draw(t, "distinct-nlabels")
+			if nl > len(names) {
+				nl = len(names)
+			}
+			q.Stages = append(q.Stages, gen.Stage{Kind: "distinct", Labels: rapid.SliceOfNDistinct(rapid.SampledFrom(names), nl, nl, rapid.ID[string]).Draw(t, "distinct-labels")})
 		case k == 9 && o.AllowRewrite && !o.OnlyFilters:
 			st := genRewriteStage(t, s)
 			if st.Kind == "line_format" || st.Kind == "decolorize" {
